@@ -5,6 +5,7 @@ import (
 	"go/types"
 	"sort"
 	"strings"
+	"sync"
 
 	"golang.org/x/tools/go/ssa"
 )
@@ -315,7 +316,11 @@ func (eng *Engine) computeEffects() {
 }
 
 // implementers returns the module's concrete methods that may be the target of an interface method call (CHA).
+var implMu sync.Mutex
+
 func (eng *Engine) implementers(m *types.Func) []*ssa.Function {
+	implMu.Lock()
+	defer implMu.Unlock()
 	if eng.implCache == nil {
 		eng.implCache = map[string][]*ssa.Function{}
 	}
